@@ -262,8 +262,6 @@ def c06(ctx, res):
         if want == "reject":
             if ran or r.rc == 0:
                 res.violate("C06/loader-accepted/" + cls, "a file the loader cannot load (%s) was run (exit %s)" % (cls, r.rc), detail)
-            elif cls == "odd" and r.rc != 1:
-                res.violate("C06/loader-exit/" + cls, "misaligned file: exit %s, documented 1" % r.rc, detail)
         else:
             if not ran:
                 res.violate("C06/loader-rejected/" + cls, "an even-length image which fits below 0x10000 was rejected (exit %s)" % r.rc, detail)
